@@ -724,6 +724,12 @@ class Emit:
             op = e[1]
             if op in ("==", "!=", "<", ">", "<=", ">=", "&&", "||"):
                 return "bool"
+            if op in ("*", "-", "+", "/") and e[2][0] != "lit":
+                try:
+                    if self.type_of(e[2]) == "Decimal":
+                        return "Decimal"
+                except Unsupported:
+                    pass
             lt = self.type_of(e[2], hint) if e[2][0] != "lit" or e[2][2] else None
             if lt is None:
                 lt = self.type_of(e[3], hint)
@@ -735,6 +741,8 @@ class Emit:
             m = e[2]
             if m == "to_string":
                 return "String"
+            if m == "div_rounded":
+                return "Decimal"
             if m == "unwrap" and isinstance(rt, tuple) and rt[0] == "Option":
                 return rt[1]
             if rt == "Decimal" and m in DEC_K_METHODS and DEC_K_METHODS[m][0] in self.sigs:
@@ -1179,6 +1187,11 @@ class Emit:
             want = {"<": ["lt"], "<=": ["lt", "eq"], ">": ["gt"], ">=": ["gt", "eq"]}[op]
             test = " || ".join(f"decide ({v} = some Ordering.{w})" for w in want)
             return la + lb + [f"let {v} ← K.decimal_partial_cmp prof ({xa}) ({xb})"], f"({test})"
+        if op == "*" and self.type_of(a) == "Decimal":
+            kb = "d" if self.type_of(b) == "Decimal" else "i"
+            target = TRAIT_CALLS[("Mul", "mul")].get(("d", kb))
+            if target in self.sigs:
+                return self.call(("call", [target], [a, b]), hint)
         if op == "-" and self.type_of(a) == "Decimal" and "decimal_sub" in self.sigs:
             la, xa = self.ex(a, "Decimal")
             lb, xb = self.ex(b, "Decimal")
@@ -1284,6 +1297,11 @@ class Emit:
                 raise Unsupported("effect inside a closure")
             return lr, f"(if {xr} = true then some ({xb}) else none)"
         t = self.type_of(recv, hint)
+        if m == "div_rounded" and len(args) == 2:
+            kinds = ("d" if t == "Decimal" else "i", "d" if self.type_of(args[0]) == "Decimal" else "i")
+            target = TRAIT_CALLS[("DivRounded", "div_rounded")].get(kinds)
+            if target in self.sigs:
+                return self.call(("call", [target], [recv] + list(args)), hint)
         if m == "unwrap" and not args and isinstance(t, tuple) and t[0] == "Option":
             lr, xr = self.ex(recv, t)
             v = self.fresh()
@@ -2102,7 +2120,7 @@ class Emit:
 
 
 # ----------------------------------------------------------------------------- driver
-GROUP_IMPORTS = {"KNumTraits": ["Fpdec.Gen.KCmp", "Fpdec.Gen.KAddSub", "Fpdec.Gen.KDecUnops", "Fpdec.Gen.KIntConv", "Fpdec.Gen.KFromStr", "Fpdec.Model.Decimal"], "KMisc": ["Fpdec.Gen.KCmp", "Fpdec.Gen.KFromStr", "Fpdec.Gen.KIntoFloat", "Fpdec.Model.Float"], "KTls": [], "KFormat": ["Fpdec.Gen.KDivRounded", "Fpdec.Gen.Consts", "Fpdec.Model.Format"], "KParse": ["Fpdec.Gen.KSwar", "Fpdec.Gen.Consts", "Fpdec.Model.Parser"], "KMagn": ["Fpdec.Gen.KLog", "Fpdec.Gen.Consts", "Fpdec.Model.Decimal"], "KRatio": ["Fpdec.Gen.KPow", "Fpdec.Model.Decimal"], "KPow": ["Fpdec.Gen.Consts"], "KDivRounded": ["Fpdec.Gen.KRound", "Fpdec.Gen.KPow", "Fpdec.Model.Core"],
+GROUP_IMPORTS = {"KQuant": ["Fpdec.Gen.KDecOps", "Fpdec.Gen.KIntOps", "Fpdec.Model.Decimal"], "KNumTraits": ["Fpdec.Gen.KCmp", "Fpdec.Gen.KAddSub", "Fpdec.Gen.KDecUnops", "Fpdec.Gen.KIntConv", "Fpdec.Gen.KFromStr", "Fpdec.Model.Decimal"], "KMisc": ["Fpdec.Gen.KCmp", "Fpdec.Gen.KFromStr", "Fpdec.Gen.KIntoFloat", "Fpdec.Model.Float"], "KTls": [], "KFormat": ["Fpdec.Gen.KDivRounded", "Fpdec.Gen.Consts", "Fpdec.Model.Format"], "KParse": ["Fpdec.Gen.KSwar", "Fpdec.Gen.Consts", "Fpdec.Model.Parser"], "KMagn": ["Fpdec.Gen.KLog", "Fpdec.Gen.Consts", "Fpdec.Model.Decimal"], "KRatio": ["Fpdec.Gen.KPow", "Fpdec.Model.Decimal"], "KPow": ["Fpdec.Gen.Consts"], "KDivRounded": ["Fpdec.Gen.KRound", "Fpdec.Gen.KPow", "Fpdec.Model.Core"],
                  "KDecDiv": ["Fpdec.Gen.KDivRounded"], "KDecMul": ["Fpdec.Gen.KDivRounded", "Fpdec.Model.Decimal"], "KNorm": [], "KFromStr": ["Fpdec.Gen.KPow", "Fpdec.Gen.Consts", "Fpdec.Model.Parser"], "KIntoFloat": ["Fpdec.Gen.Consts", "Fpdec.Model.Decimal"], "KIntOps": ["Fpdec.Gen.KDecDiv", "Fpdec.Gen.KNorm", "Fpdec.Gen.Consts", "Fpdec.Model.Decimal"], "KForward": ["Fpdec.Gen.KAddSub", "Fpdec.Gen.KDecOps"], "KIntConv": ["Fpdec.Gen.KPow", "Fpdec.Model.Decimal"], "KCmp": ["Fpdec.Gen.KPow", "Fpdec.Model.Decimal"], "KAddSub": ["Fpdec.Gen.KPow", "Fpdec.Model.Decimal"], "KDecUnops": ["Fpdec.Gen.KUnops", "Fpdec.Gen.KPow", "Fpdec.Model.Decimal"], "KDecOps": ["Fpdec.Gen.KDecDiv", "Fpdec.Gen.KDecMul", "Fpdec.Gen.KNorm", "Fpdec.Gen.Consts", "Fpdec.Model.Decimal"],
                  "KDecRound": ["Fpdec.Gen.KDivRounded", "Fpdec.Model.Decimal"],
                  "KFloat": ["Fpdec.Gen.KNorm", "Fpdec.Gen.Consts", "Fpdec.Model.Core", "Fpdec.Model.Decimal"], "KRem": ["Fpdec.Gen.KPow"], "KDecRem": ["Fpdec.Gen.KRem", "Fpdec.Model.Decimal"],
@@ -2284,6 +2302,10 @@ KERNELS = [
     ("KNumTraits", "src/num_traits.rs", "signum", "Decimal", {"as": "nt_signum"}),
     ("KNumTraits", "src/num_traits.rs", "is_positive", "Decimal", {"as": "nt_is_positive"}),
     ("KNumTraits", "src/num_traits.rs", "is_negative", "Decimal", {"as": "nt_is_negative"}),
+    ("KQuant", "src/quantize.rs", "quantize", "Decimal", {"as": "quantize_dec_dec", "occ": 0, "generics": {"Q": "Decimal"}, "ret": "Decimal"}),
+    ("KQuant", "src/quantize.rs", "quantize", "Decimal", {"as": "quantize_dec_int", "occ": 0, "generics": {"Q": "i64"}, "ret": "Decimal"}),
+    ("KQuant", "src/quantize.rs", "quantize", "i64", {"as": "quantize_int_dec", "occ": 0, "generics": {"Q": "Decimal"}, "ret": "Decimal"}),
+    ("KQuant", "src/quantize.rs", "quantize", "i64", {"as": "quantize_int_int", "occ": 0, "generics": {"Q": "i64"}, "ret": "Decimal"}),
     ("KFormat", "src/format.rs", "from", "String", {"as": "string_from_decimal"}),
     ("KFormat", "src/format.rs", "fmt", "Decimal", {"as": "decimal_debug_fmt", "macro": ("impl_debug", 0, 0, None), "ret": "Written"}),
     ("KFormat", "src/format.rs", "fmt", "Decimal", {"as": "decimal_display_fmt", "ret": "Written", "occ": 1}),
@@ -2358,11 +2380,12 @@ TM_NEEDED = {}
 TRAIT_CALLS = {
     ("Add", "add"): {("d", "d"): "decimal_add", ("d", "i"): "decimal_add_int", ("i", "d"): "int_add_decimal"},
     ("Sub", "sub"): {("d", "d"): "decimal_sub", ("d", "i"): "decimal_sub_int", ("i", "d"): "int_sub_decimal"},
-    ("Mul", "mul"): {("d", "d"): "decimal_mul"},
+    ("Mul", "mul"): {("d", "d"): "decimal_mul", ("d", "i"): "decimal_mul_int", ("i", "d"): "int_mul_decimal"},
     ("Div", "div"): {("d", "d"): "decimal_div"},
     ("Rem", "rem"): {("d", "d"): "decimal_rem"},
     ("MulRounded", "mul_rounded"): {("d", "d"): "decimal_mul_rounded"},
-    ("DivRounded", "div_rounded"): {("d", "d"): "decimal_div_rounded"},
+    ("DivRounded", "div_rounded"): {("d", "d"): "decimal_div_rounded", ("d", "i"): "decimal_div_rounded_int",
+                                    ("i", "d"): "int_div_rounded_decimal", ("i", "i"): "int_div_rounded_int"},
 }
 ERR_TYPE = ["DecimalError"]      # what `Self::Error` stands for in the function being parsed
 
@@ -2411,7 +2434,8 @@ def translate(repo):
                     fname = binds[fname]
             params, ret, body = parse_fn(text, fname, opts.get("occ", 0), name)
             ERR_TYPE[0] = opts.get("err", "DecimalError")
-            params = [(n, sub(t, selfty)) for n, t in params]
+            gen_ = opts.get("generics", {})
+            params = [(n, gen_.get(sub(t, selfty), sub(t, selfty))) for n, t in params]
             if "cell" in opts:
                 # the function accesses the thread-local cell: it becomes an explicit first parameter (and, when written, a result)
                 params = [("cell", "RoundingMode")] + params
